@@ -408,7 +408,17 @@ def explore(harness, part, budget_s=60.0, per_path_timeout=20.0, max_paths=10 **
                                 if cres is not None and cres.classify is not None:
                                     csig = str(cres.classify(part, dict(cs.inputs)))
                                 ssig = verdict.sig if verdict is not None else None
-                                if csig != ssig or not set(cs.tags) <= set(sym.tags):
+                                if csig is not None and ssig is None:
+                                    # the concrete re-run on the real code (no tracer) fails where the traced run did not:
+                                    # the concrete run is the ground truth -> a violation candidate (it is replayed like any
+                                    # other); recorded as a tracer infidelity too
+                                    res['audit'].setdefault('concrete_only_failures', 0)
+                                    res['audit']['concrete_only_failures'] += 1
+                                    if csig not in res['violations']:
+                                        cwhy = cres.why() if callable(cres.why) else cres.why
+                                        res['violations'][csig] = dict(sig=csig, why=str(cwhy) + ' [found by the concrete fidelity re-run of a path the tracer passed]',
+                                                                       inputs=enc_inputs, part=part)
+                                elif csig != ssig or not set(cs.tags) <= set(sym.tags):
                                     res['audit']['mismatches'].append(dict(
                                         inputs=enc_inputs, symbolic=[ssig, sorted(sym.tags)],
                                         concrete=[csig, sorted(cs.tags)]))
